@@ -259,8 +259,40 @@ def _rebinding(ctx: Ctx):
         ctx.count("rebinding", "name=" + ("builtin-name" if name in ("center", "scale") else "dotted" if "." in name else "fresh"))
 
 
+def _dot_order(ctx: Ctx):
+    """'.' follows the column order of the data of THIS call: frames with the same column names in different orders, built one after the other"""
+    import numpy as np
+    import pandas as pd
+    from formulaic import model_matrix
+    rng = ctx.fork("dot-order")
+    base = pd.DataFrame({"y": [1.0, 2.0, 3.0, 5.0], "a": [2.0, 1.0, 0.0, 1.0], "b": [0.5, 0.25, 1.0, 2.0], "c": [3.0, 1.0, 4.0, 1.0], "d": [1.0, 0.0, 0.0, 1.0]})
+    for i in range(ctx.n(20, 200)):
+        cols = rng.sample(list(base.columns), rng.randint(3, 5))
+        if "y" not in cols:
+            cols[0] = "y"
+        hist = []
+        for step in range(rng.randint(2, 4)):
+            order = cols[:]
+            rng.shuffle(order)
+            f = rng.choice(["y ~ .", "y ~ . - 1", "y ~ 0 + .", "np.log(y + 1) ~ ."])
+            hist.append((f, order))
+            ctx.oracle_runs += 1
+            try:
+                mm = model_matrix(f, base[order])
+            except Exception as e:
+                ctx.fail(f"builds {hist}: {type(e).__name__}: {e}", {"kind": "dot-order", "history": hist})
+                break
+            want = ([] if ("- 1" in f or "0 +" in f) else ["Intercept"]) + [c for c in order if c != "y"]
+            if list(mm.rhs.columns) != want:
+                ctx.fail(f"after the builds {hist[:-1]}, {f!r} on columns {order} gives {list(mm.rhs.columns)}; the data columns in order are {want}",
+                         {"kind": "dot-order", "history": hist})
+                break
+        ctx.count("dot-order", "histories")
+
+
 def run(ctx: Ctx):
     _rebinding(ctx)
+    _dot_order(ctx)
     rng = ctx.fork("c18")
     lits, descr = [], []
     for i in range(ctx.n(150, 2500)):
